@@ -1,5 +1,11 @@
 package gmars
 
+import (
+	"fmt"
+	"io"
+	"strings"
+)
+
 // C08 — FOR/ROF blocks assemble exactly like their manual unrolling, and
 // block labels refer to the first instruction the block emits.
 
@@ -15,6 +21,40 @@ func init() {
 // pass loop, parser and compiler all run from CompileWarrior's own code.
 func vCompileTokens(tokens []token, config SimulatorConfig) (WarriorData, error) {
 	return CompileWarrior(vTokenReader(tokens), config)
+}
+
+// vTokenReader: a reader whose lexing yields exactly the given tokens.
+// Natively the tokens are written out as text (blank separated) and the real
+// lexer reads them back; a list that does not survive that round trip is a
+// harness error and is reported, not hidden. Under the engine the package's
+// lexer hands the list out unchanged.
+func vTokenReader(tokens []token) io.Reader {
+	var sb strings.Builder
+	first := true
+	for _, t := range tokens {
+		switch t.typ {
+		case tokNewline:
+			sb.WriteString("\n")
+			first = true
+		case tokEOF:
+		default:
+			if !first {
+				sb.WriteString(" ")
+			}
+			sb.WriteString(t.val)
+			first = false
+		}
+	}
+	text := sb.String()
+	back, err := LexInput(strings.NewReader(text))
+	same := err == nil && len(back) == len(tokens)
+	for i := 0; same && i < len(back); i++ {
+		same = back[i].typ == tokens[i].typ && (back[i].val == tokens[i].val || tokens[i].typ == tokNewline || tokens[i].typ == tokEOF)
+	}
+	if !same {
+		panic(fmt.Sprintf("vTokenReader: token list is not what the lexer reads from its rendering %q", text))
+	}
+	return strings.NewReader(text)
 }
 
 type vError struct{ s string }
